@@ -57,7 +57,18 @@ def _ws1(rng):
     return rng.pick(WS)
 
 
+_LONG = [15, 16, 17, 31, 32, 33, 63, 64, 65, 127, 128, 129, 255, 256, 257, 1023, 1024, 1025, 4096]
+
+
+def _long(rng, alphabet=b"abcdefgh0123456789"):
+    """names, values and contents whose length sits on or next to a power of two (fixed-size buffers, growth steps)"""
+    n = rng.pick(_LONG)
+    return bytes(alphabet[rng.randrange(len(alphabet))] for _ in range(n))
+
+
 def _value(rng, q):
+    if rng.chance(0.04):
+        return _long(rng)
     out = []
     for _ in range(rng.randrange(0, 6)):
         r = rng.random()
@@ -71,6 +82,8 @@ def _value(rng, q):
 
 
 def _text(rng):
+    if rng.chance(0.04):
+        return b"t" + _long(rng)[1:]
     first = rng.pick([b"t", b"T", b"7", b">", b"\"", b"\\", b"\xc2\xb5", b"-", b"!", b"/"])
     mid = b"".join(rng.pick(TXTCH) for _ in range(rng.randrange(0, 6)))
     last = rng.pick([b"", b"", b"z", b">", b"'", b"\xff", b"\\"])
@@ -96,14 +109,14 @@ def _misc(rng):
 
 def gen_node(rng, depth, maxdepth):
     """-> (bytes, tree) with tree = (name, {key: value}, content, [children])"""
-    name = rng.pick(NAMES)
+    name = rng.pick(NAMES) if not rng.chance(0.03) else b"n" + _long(rng, b"abcXYZ_019")[1:]
     props = {}
     s = b"<" + name
     nprops = rng.pick([0, 0, 1, 1, 2, 3])
     sep = _ws(rng, 0.3) if nprops == 0 else _ws1(rng)
     s += sep
     for i in range(nprops):
-        k = rng.pick(KEYS)
+        k = rng.pick(KEYS) if not rng.chance(0.03) else b"k" + _long(rng, b"abcXYZ_019")[1:]
         q = b'"' if rng.chance(0.5) else b"'"
         v = _value(rng, q)
         props[k] = v                                  # duplicates: the last one wins (std::map operator[])
